@@ -83,7 +83,17 @@ Definition delete_before_cursor_pinned (b : buf) (count : Z) : res :=
     end
   else Ok b [].
 
+(* Buffer.delete as it is in /repo now: text_after_cursor[: max(0, count)] *)
 Definition delete (b : buf) (count : Z) : res :=
+  if bcur b <? len (btext b) then
+    let deleted := slice_to (text_after_cursor (bdoc b)) (Z.max 0 count) in
+    Ok (set_text b (slice_to (btext b) (bcur b) ++ slice_from (btext b) (bcur b + len deleted)))
+       deleted
+  else Ok b [].
+
+(* ... and as it stood before the repair: text_after_cursor[:count], a slice
+   relative to the END of the string for a negative count *)
+Definition delete_pinned (b : buf) (count : Z) : res :=
   if bcur b <? len (btext b) then
     let deleted := slice_to (text_after_cursor (bdoc b)) count in
     Ok (set_text b (slice_to (btext b) (bcur b) ++ slice_from (btext b) (bcur b + len deleted)))
